@@ -166,18 +166,23 @@ Fixpoint pairwise_disjoint (l : list bset) : bool :=
   | s :: tl => forallb (fun u => negb (bs_intersects s u)) tl && pairwise_disjoint tl
   end.
 
+Definition dcs (d : dobj) : bset := oset (o_cs d).
+
 (* siblings in the order hwloc__object_cpusets_compare_first gives: no child sorts before its predecessor *)
-Fixpoint sorted_first (l : list obj) : bool :=
+Fixpoint sorted_first (l : list dobj) : bool :=
   match l with
-  | a :: tl => match tl with b :: _ => negb (obj_first_lt (odata b) (odata a)) | [] => true end && sorted_first tl
+  | a :: tl => match tl with b :: _ => negb (obj_first_lt b a) | [] => true end && sorted_first tl
   | [] => true
   end.
 
-Definition sibs_ok (d : dobj) (n : list obj) : bool :=
-  pairwise_disjoint (map ocs n) && sorted_first n &&
-  forallb (fun c => bs_subset (ocs c) (oset (o_cs d)) && subset_opt (o_ccs (odata c)) (o_ccs d)
-                    && subset_opt (o_nds (odata c)) (o_nds d) && subset_opt (o_cnds (odata c)) (o_cnds d)) n &&
-  match n with [] => true | _ => bs_eqb (union_all (map ocs n)) (oset (o_cs d)) end.
+(* the clauses about one object and its normal children, over the payloads only *)
+Definition sibs_okd (d : dobj) (ds : list dobj) : bool :=
+  pairwise_disjoint (map dcs ds) && sorted_first ds &&
+  forallb (fun c => bs_subset (dcs c) (dcs d) && subset_opt (o_ccs c) (o_ccs d)
+                    && subset_opt (o_nds c) (o_nds d) && subset_opt (o_cnds c) (o_cnds d)) ds &&
+  match ds with [] => true | _ => bs_eqb (union_all (map dcs ds)) (dcs d) end.
+
+Definition sibs_ok (d : dobj) (n : list obj) : bool := sibs_okd d (map odata n).
 
 Fixpoint tree_inv (o : obj) : bool :=
   match o with
@@ -453,3 +458,166 @@ Lemma allow_all_example :
   snd (step topo_off (CAllow HWLOC_ALLOW_FLAG_ALL None None)) = RInt 0 /\
   m_acpu (fst (step topo_off (CAllow HWLOC_ALLOW_FLAG_ALL None None))) = bs_of_N 15.
 Proof. split; vm_compute; reflexivity. Qed.
+
+(* ------------------------------------------------------------------ *)
+(* hwloc_topology_insert_misc_object preserves Inv                     *)
+
+Lemma map_gp_eq g f d n m i x :
+  map_gp g f (Obj d n m i x) =
+  (if has_gp g (Obj d n m i x) then f else fun o => o)
+    (Obj d (map (map_gp g f) n) (map (map_gp g f) m) (map (map_gp g f) i) (map (map_gp g f) x)).
+Proof. cbn [map_gp]. destruct (has_gp g (Obj d n m i x)); reflexivity. Qed.
+
+(* f only touches the memory / io / misc children lists *)
+Definition keeps_shape (f : obj -> obj) : Prop :=
+  forall d n m i x, exists m' i' x', f (Obj d n m i x) = Obj d n m' i' x'.
+
+Lemma map_gp_shape g f (Hf : keeps_shape f) : forall o,
+  odata (map_gp g f o) = odata o /\ tree_inv (map_gp g f o) = tree_inv o.
+Proof.
+  induction o as [d n m i x Hn _ _ _] using obj_ind4.
+  rewrite map_gp_eq.
+  assert (E1 : map odata (map (map_gp g f) n) = map odata n).
+  { induction Hn as [|c tl [Hc _] _ IH]; [reflexivity|]. cbn [map]. now rewrite Hc, IH. }
+  assert (E2 : forallb tree_inv (map (map_gp g f) n) = forallb tree_inv n).
+  { clear E1. induction Hn as [|c tl [_ Hc] _ IH]; [reflexivity|]. cbn [map forallb]. now rewrite Hc, IH. }
+  assert (G : forall m' i' x', tree_inv (Obj d (map (map_gp g f) n) m' i' x') = tree_inv (Obj d n m i x)).
+  { intros. rewrite !tree_inv_eq. unfold sibs_ok. now rewrite E1, E2. }
+  destruct (has_gp g (Obj d n m i x)).
+  - destruct (Hf d (map (map_gp g f) n) (map (map_gp g f) m) (map (map_gp g f) i) (map (map_gp g f) x)) as (m' & i' & x' & E).
+    rewrite E. split; [reflexivity|apply G].
+  - split; [reflexivity|apply G].
+Qed.
+
+(* gp_index lists *)
+Definition gpl (d : dobj) : list N := match o_gp d with Some g => [g] | None => [] end.
+
+Lemma flatten_eq d n m i x :
+  flatten (Obj d n m i x) = Obj d n m i x :: flat_map flatten n ++ flat_map flatten m ++ flat_map flatten i ++ flat_map flatten x.
+Proof. reflexivity. Qed.
+
+Lemma flat_map_flat_map {A B C} (f : B -> list C) (g : A -> list B) l :
+  flat_map f (flat_map g l) = flat_map (fun a => flat_map f (g a)) l.
+Proof. induction l as [|a tl IH]; [reflexivity|]. cbn [flat_map]. now rewrite flat_map_app, IH. Qed.
+
+Lemma gps_eq d n m i x :
+  gps (Obj d n m i x) = gpl d ++ flat_map gps n ++ flat_map gps m ++ flat_map gps i ++ flat_map gps x.
+Proof.
+  unfold gps at 1. rewrite flatten_eq. cbn [flat_map odata]. fold (gpl d).
+  rewrite !flat_map_app, !flat_map_flat_map. reflexivity.
+Qed.
+
+Definition cnt (a : N) (l : list N) : nat := count_occ N.eq_dec l a.
+Lemma cnt_app a l1 l2 : cnt a (l1 ++ l2) = (cnt a l1 + cnt a l2)%nat.
+Proof. apply count_occ_app. Qed.
+
+Definition add_misc (mo : obj) (p : obj) : obj := match p with Obj d n m i x => Obj d n m i (x ++ [mo]) end.
+Lemma add_misc_shape mo : keeps_shape (add_misc mo).
+Proof. intros d n m i x. exists m, i, (x ++ [mo]). reflexivity. Qed.
+
+(* every object whose gp_index is p gets one more Misc child (gp_index g): the multiset of gp_index grows by
+   as many copies of g *)
+Lemma gps_map_gp_count p g mo (Hmo : gps mo = [g]) a : forall o,
+  cnt a (gps (map_gp p (add_misc mo) o)) = (cnt a (gps o) + (if N.eq_dec g a then cnt p (gps o) else 0))%nat.
+Proof.
+  induction o as [d n m i x Hn Hm Hi Hx] using obj_ind4.
+  assert (L : forall l, Forall (fun o => cnt a (gps (map_gp p (add_misc mo) o)) =
+                                          (cnt a (gps o) + (if N.eq_dec g a then cnt p (gps o) else 0))%nat) l ->
+              cnt a (flat_map gps (map (map_gp p (add_misc mo)) l)) =
+              (cnt a (flat_map gps l) + (if N.eq_dec g a then cnt p (flat_map gps l) else 0))%nat).
+  { intros l Hl. induction Hl as [|c tl Hc _ IH]; cbn [map flat_map].
+    - destruct (N.eq_dec g a); reflexivity.
+    - rewrite !cnt_app, Hc, IH. destruct (N.eq_dec g a); lia. }
+  rewrite map_gp_eq.
+  assert (Hg : has_gp p (Obj d n m i x) = true -> cnt p (gpl d) = 1%nat).
+  { unfold has_gp, gpl. cbn [odata]. destruct (o_gp d) as [q|]; [|discriminate]. intros E. apply N.eqb_eq in E. subst q.
+    unfold cnt. cbn. destruct (N.eq_dec p p); [reflexivity|contradiction]. }
+  assert (Hg' : has_gp p (Obj d n m i x) = false -> cnt p (gpl d) = 0%nat).
+  { unfold has_gp, gpl. cbn [odata]. destruct (o_gp d) as [q|]; [|reflexivity]. intros E. apply N.eqb_neq in E.
+    unfold cnt. cbn. destruct (N.eq_dec q p); [contradiction|reflexivity]. }
+  destruct (has_gp p (Obj d n m i x)) eqn:E.
+  - cbn [add_misc]. rewrite !gps_eq. rewrite flat_map_app. cbn [flat_map]. rewrite Hmo, app_nil_r.
+    rewrite !cnt_app, (L n Hn), (L m Hm), (L i Hi), (L x Hx), (Hg eq_refl).
+    assert (Hs : cnt a [g] = if N.eq_dec g a then 1%nat else 0%nat) by (unfold cnt; cbn; destruct (N.eq_dec g a); reflexivity).
+    rewrite Hs. destruct (N.eq_dec g a); lia.
+  - rewrite !gps_eq, !cnt_app, (L n Hn), (L m Hm), (L i Hi), (L x Hx), (Hg' eq_refl).
+    destruct (N.eq_dec g a); lia.
+Qed.
+
+Lemma nodup_N_NoDup l : nodup_N l = true <-> NoDup l.
+Proof.
+  induction l as [|a tl IH]; cbn [nodup_N].
+  - split; [constructor|reflexivity].
+  - rewrite andb_true_iff, negb_true_iff, IH. split.
+    + intros [H1 H2]. constructor; [|exact H2]. intros Hin.
+      assert (existsb (N.eqb a) tl = true) by (apply existsb_exists; exists a; split; [exact Hin|apply N.eqb_refl]). congruence.
+    + intros H. inversion H as [|a' tl' H1 H2]; subst. split; [|exact H2].
+      destruct (existsb (N.eqb a) tl) eqn:E; [|reflexivity]. apply existsb_exists in E as (b & Hb & Eb).
+      apply N.eqb_eq in Eb. subst b. contradiction.
+Qed.
+
+Theorem step_misc_preserves_inv t p name : Inv t -> Inv (fst (step_misc t p name)).
+Proof.
+  intros (H1 & H2 & H3 & A1 & A2). unfold step_misc.
+  destruct (filter_is_none t HWLOC_OBJ_MISC); [repeat split; assumption|].
+  destruct (find_obj t p) as [po|] eqn:Ef; [|repeat split; assumption].
+  cbn [fst].
+  set (g := m_next_gp t).
+  set (mo := Obj (fresh_dobj HWLOC_OBJ_MISC g None None None None (-1)%Z (-1)%Z) [] [] [] []).
+  set (f := fun p0 : obj => match p0 with Obj d n m i x => Obj d n m i (x ++ [mo]) end).
+  change f with (add_misc mo).
+  assert (Hmo : gps mo = [g]) by reflexivity.
+  destruct (map_gp_shape p (add_misc mo) (add_misc_shape mo) (m_root t)) as [Ed Et].
+  assert (Hfresh : cnt g (gps (m_root t)) = 0%nat).
+  { apply count_occ_not_In. intros Hin. rewrite Forall_forall in H3. specialize (H3 g Hin). unfold g in H3. lia. }
+  apply nodup_N_NoDup in H2.
+  unfold Inv. cbn [m_root m_next_gp set_extra set_next_gp set_root m_acpu m_anode].
+  split; [rewrite Et; exact H1|]. split; [|split].
+  - apply nodup_N_NoDup. apply (NoDup_count_occ N.eq_dec). intros a.
+    fold (cnt a (gps (map_gp p (add_misc mo) (m_root t)))). rewrite (gps_map_gp_count p g mo Hmo a).
+    pose proof (proj1 (NoDup_count_occ N.eq_dec _) H2 a) as Ha. pose proof (proj1 (NoDup_count_occ N.eq_dec _) H2 p) as Hp.
+    fold (cnt a (gps (m_root t))) in Ha. fold (cnt p (gps (m_root t))) in Hp.
+    destruct (N.eq_dec g a) as [<-|]; lia.
+  - apply Forall_forall. intros a Ha.
+    assert (Hc : (cnt a (gps (map_gp p (add_misc mo) (m_root t))) > 0)%nat) by (apply count_occ_In; exact Ha).
+    rewrite (gps_map_gp_count p g mo Hmo a) in Hc.
+    destruct (N.eq_dec g a) as [<-|Hne].
+    + unfold g. lia.
+    + assert (In a (gps (m_root t))) by (apply (count_occ_In N.eq_dec); unfold cnt in Hc; lia).
+      rewrite Forall_forall in H3. specialize (H3 a H). lia.
+  - unfold allowed_ok, root_set in *. cbn [m_root m_acpu m_anode set_extra set_next_gp set_root]. rewrite Ed. split; assumption.
+Qed.
+
+(* ------------------------------------------------------------------ *)
+(* every call except Group insertion                                   *)
+
+Definition is_group_insert (c : call) : bool := match c with CGroup _ => true | _ => false end.
+
+Theorem step_preserves_inv_nongroup t c : is_group_insert c = false -> Inv t -> Inv (fst (step t c)).
+Proof.
+  destruct c; intros Hs Hi; try discriminate; try (apply step_preserves_inv_partial; [reflexivity|exact Hi]).
+  cbn [step]. apply step_misc_preserves_inv, Hi.
+Qed.
+
+Theorem history_preserves_inv_nongroup cs : forall t,
+  forallb (fun c => negb (is_group_insert c)) cs = true -> Inv t -> Inv (run t cs).
+Proof.
+  induction cs as [|c tl IH]; intros t Hall Hi; [exact Hi|].
+  cbn [forallb] in Hall. apply andb_true_iff in Hall as [Hc Htl]. apply negb_true_iff in Hc.
+  unfold run. cbn [fold_left]. apply IH; [exact Htl|]. apply step_preserves_inv_nongroup; assumption.
+Qed.
+
+(* no object disappears, and every object keeps its gp_index, through any call but Group insertion
+   (restrict is the only other call that removes objects; it is not a call of this model) *)
+Theorem gp_index_kept_nongroup t c a :
+  is_group_insert c = false -> In a (gps (m_root t)) -> In a (gps (m_root (fst (step t c)))).
+Proof.
+  intros Hs Hin. destruct c; try discriminate; try (rewrite step_tree_unchanged by reflexivity; exact Hin).
+  cbn [step]. unfold step_misc. brk; cbn [fst m_root set_extra set_next_gp set_root]; try exact Hin.
+  set (mo := Obj (fresh_dobj HWLOC_OBJ_MISC (m_next_gp t) None None None None (-1)%Z (-1)%Z) [] [] [] []).
+  change (fun p : obj => match p with Obj d n m i x => Obj d n m i (x ++ [mo]) end) with (add_misc mo).
+  apply (count_occ_In N.eq_dec).
+  fold (cnt a (gps (map_gp parent (add_misc mo) (m_root t)))).
+  rewrite (gps_map_gp_count parent (m_next_gp t) mo eq_refl a).
+  apply (count_occ_In N.eq_dec) in Hin. unfold cnt. lia.
+Qed.
